@@ -738,7 +738,7 @@ func (w *walker) opRead() {
 		if i := gen.CheckContent(mn.ContentID, off, chk); i >= 0 {
 			exp := make([]byte, 1)
 			gen.FillContent(mn.ContentID, off+int64(i), exp)
-			w.violate("read:bytes-differ@"+store, fmt.Sprintf("Read(%q, off=%d, len=%d): byte at file offset %d is %#02x, the tar has %#02x (%s)", "/"+p, off, ln, off+int64(i), chk[i], exp[0], w.whose(mn, off+int64(i), chk, i)),
+			w.violate("read:bytes-differ@"+store+w.cfgFamily(), fmt.Sprintf("Read(%q, off=%d, len=%d): byte at file offset %d is %#02x, the tar has %#02x (%s)", "/"+p, off, ln, off+int64(i), chk[i], exp[0], w.whose(mn, off+int64(i), chk, i)),
 				map[string]any{"path": p, "off": off, "len": ln, "size": mn.Size, "first_diff_at": off + int64(i), "chunk": c.chunk})
 		}
 		w.st.inc("cmp.read_bytes", int64(len(chk)))
@@ -799,6 +799,17 @@ func (w *walker) whose(mn *gen.Node, at int64, got []byte, i int) string {
 	return "bytes of no file of this tar"
 }
 
+// cfgFamily names the configuration family of the environment in byte-level violation
+// keys where that family is known to matter: passthrough with merge_worker_count <= 0 (the
+// merged whole-file cache entry, which is also the chunk entry of single-chunk files, is
+// written without any worker having filled the buffer).
+func (w *walker) cfgFamily() string {
+	if cfg := w.er.e.cfg; cfg.PassThrough && cfg.MergeWorkerCount <= 0 {
+		return ":passthrough-workers<=0"
+	}
+	return ""
+}
+
 func (w *walker) checkPassthrough(p string, mn *gen.Node, fd int) {
 	w.st.inc("passthrough.fd_checked", 1)
 	store := w.er.e.store
@@ -808,7 +819,7 @@ func (w *walker) checkPassthrough(p string, mn *gen.Node, fd int) {
 		return
 	}
 	if st.Size != mn.Size {
-		w.violate("passthrough:size@"+store, fmt.Sprintf("passthrough file of %q has %d bytes, the tar describes %d", "/"+p, st.Size, mn.Size),
+		w.violate("passthrough:size@"+store+w.cfgFamily(), fmt.Sprintf("passthrough file of %q has %d bytes, the tar describes %d", "/"+p, st.Size, mn.Size),
 			map[string]any{"path": p, "served": st.Size, "model": mn.Size})
 	}
 	buf := make([]byte, mn.Size+1)
@@ -828,7 +839,7 @@ func (w *walker) checkPassthrough(p string, mn *gen.Node, fd int) {
 		n = int(mn.Size)
 	}
 	if i := gen.CheckContent(mn.ContentID, 0, buf[:n]); i >= 0 {
-		w.violate("passthrough:bytes-differ@"+store, fmt.Sprintf("passthrough file of %q differs from the tar at offset %d (%s)", "/"+p, i, w.whose(mn, int64(i), buf[:n], i)),
+		w.violate("passthrough:bytes-differ@"+store+w.cfgFamily(), fmt.Sprintf("passthrough file of %q differs from the tar at offset %d (%s)", "/"+p, i, w.whose(mn, int64(i), buf[:n], i)),
 			map[string]any{"path": p, "first_diff_at": i, "size": mn.Size})
 	}
 	w.st.inc("cmp.passthrough_bytes", int64(n))
